@@ -893,6 +893,13 @@ func (c *Ctx) verifCall(fr *Frame, fn *ssa.Function, args []Value) (Value, bool)
 			c.sched.yield(fr, "yield")
 		}
 		return nil, true
+	case "verifHoldTimers":
+		// while held, armed timers do not fire (no time passes); released timers fire as before
+		if c.sched != nil {
+			b := args[0].(*Term)
+			c.sched.holdTimers = b.isC && b.cval == 1
+		}
+		return nil, true
 	case "verifAllocBudget":
 		c.allocLimit = args[0].(*Term)
 		return nil, true
